@@ -422,3 +422,449 @@ pub fn random_layout(c: &mut Choice, spec: &mut FileSpec, max_gap: usize) {
         _ => 0,
     };
 }
+
+// ================================================================================================
+// Rich files: sections of every kind, wired by sh_link/sh_info, segments, random layout, overrides
+// and byte-level corruption. Used by the byte-string properties (C01, C06, C07, C08, C16, C17, C18).
+// ================================================================================================
+
+use crate::refs;
+
+#[derive(Clone, Copy, Debug, PartialEq, Eq)]
+pub enum Kind {
+    Null,
+    Progbits,
+    Nobits,
+    Strtab,
+    ShStrtab,
+    Symtab,
+    SymStr,
+    Dynsym,
+    DynStr,
+    Hash,
+    GnuHash,
+    Versym,
+    Verneed,
+    Verdef,
+    Note,
+    Rel,
+    Rela,
+    Dynamic,
+    Compressed,
+}
+
+#[derive(Clone, Debug, Default)]
+pub struct RichOpts {
+    /// probability (/256) that header overrides are applied
+    pub override_chance: u32,
+    /// probability (/256) that body bytes are corrupted
+    pub corrupt_chance: u32,
+    pub max_gap: usize,
+    /// place the tables directly behind the ELF header (C18: most prefixes still open)
+    pub tables_early: bool,
+    /// allow SHF_COMPRESSED sections
+    pub allow_compressed: bool,
+    pub max_names: usize,
+}
+
+#[derive(Clone, Debug)]
+pub struct Rich {
+    pub spec: FileSpec,
+    pub built: Built,
+    pub kinds: Vec<Kind>,
+    /// dynamic symbol names (index = symbol index)
+    pub dyn_names: Vec<Vec<u8>>,
+    pub sym_names: Vec<Vec<u8>>,
+    pub overridden: bool,
+    pub corrupted: bool,
+    pub n_overrides: usize,
+}
+
+fn simple_names(c: &mut Choice, max: usize) -> Vec<Vec<u8>> {
+    let n = c.below(max as u64 + 1) as usize;
+    let mut v: Vec<Vec<u8>> = vec![vec![]];
+    for i in 0..n {
+        let nm: Vec<u8> = match c.below(6) {
+            0 => vec![],
+            1 if v.len() > 1 => v[1 + c.idx(v.len() - 1)].clone(),
+            2 if v.len() > 1 => refs::djb2_collide(&v[v.len() - 1]).unwrap_or_else(|| vec![b'c', b'0' + (i % 10) as u8]),
+            3 => vec![0xc3, 0x28, b'0' + (i % 10) as u8],
+            _ => {
+                let mut s = b"sym_".to_vec();
+                s.push(b'a' + (i % 26) as u8);
+                s.push(b'0' + c.below(10) as u8);
+                if c.chance(40) {
+                    s.extend_from_slice(b"_longer_name");
+                }
+                s
+            }
+        };
+        v.push(nm);
+    }
+    v
+}
+
+pub fn boundary_for(c: &mut Choice, file_len: usize, own: u64) -> u64 {
+    match c.below(12) {
+        0 => file_len as u64,
+        1 => file_len as u64 - (file_len > 0) as u64,
+        2 => file_len as u64 + 1,
+        3 => own,
+        4 => own.wrapping_add(1),
+        5 => own.wrapping_sub(1),
+        6 => c.below(file_len as u64 + 2),
+        7 => c.u64(),
+        _ => c.val(64),
+    }
+}
+
+/// Generate a rich file from a choice sequence.
+pub fn rich_file(c: &mut Choice, o: &RichOpts) -> Rich {
+    let enc = ALL_ENC[c.below(4) as usize];
+    let mut f = FileSpec::new(enc);
+    f.ehdr.e_type = *c.pick(&[0u16, 1, 2, 3, 4, 0xfeff]);
+    f.ehdr.e_machine = *c.pick(&[0u16, 3, 40, 62, 183, 243, 0xffff]);
+    f.ehdr.e_entry = c.val(64);
+    f.ehdr.e_flags = c.val(32) as u32;
+    f.ehdr.ident[7] = c.below(20) as u8;
+    let mut kinds: Vec<Kind> = vec![];
+    let mask = c.u32();
+    let has = |b: u32| mask & (1 << b) != 0;
+    let minimal = c.chance(16);
+    let mut dyn_names = vec![vec![]];
+    let mut sym_names = vec![vec![]];
+    if !minimal {
+        f.add_sec(b"", SHT_NULL, vec![]);
+        kinds.push(Kind::Null);
+        let word = if enc.c64 { 8 } else { 4 };
+        // --- dynamic symbols + hashes
+        let mut i_dynsym = None;
+        if has(0) {
+            dyn_names = simple_names(c, o.max_names.max(2));
+            // gnu hash needs the hashed part sorted by bucket; keep one unhashed symbol in front
+            let nbucket = 1 + c.below(5) as u32;
+            let symoffset = 1 + (dyn_names.len() > 2 && c.bool()) as u32;
+            let mut hashed: Vec<Vec<u8>> = dyn_names[symoffset as usize..].to_vec();
+            refs::gnu_sort(&mut hashed, nbucket);
+            dyn_names.truncate(symoffset as usize);
+            dyn_names.extend(hashed.iter().cloned());
+            let tab = refs::build_symtab(enc, &dyn_names, c.u16() as u64, c.bool());
+            let i_str = f.add_sec(b".dynstr", SHT_STRTAB, tab.strtab.clone());
+            kinds.push(Kind::DynStr);
+            let i = f.add_sec(b".dynsym", SHT_DYNSYM, tab.symtab.clone());
+            kinds.push(Kind::Dynsym);
+            f.secs[i].hdr.sh_link = i_str as u32;
+            f.secs[i].hdr.sh_entsize = sym_size(enc) as u64;
+            f.secs[i].hdr.sh_info = 1;
+            f.secs[i].align = word;
+            i_dynsym = Some((i, i_str));
+            if has(1) {
+                let mode = c.bool();
+                let h = refs::build_sysv_hash(enc, &dyn_names, 1 + c.below(6) as u32, &|_| mode);
+                let j = f.add_sec(b".hash", SHT_HASH, h);
+                kinds.push(Kind::Hash);
+                f.secs[j].hdr.sh_link = i as u32;
+                f.secs[j].hdr.sh_entsize = 4;
+                f.secs[j].align = 4;
+            }
+            if has(2) {
+                let p = refs::GnuParams { nbucket, nbloom: 1 << c.below(3), shift: c.below(32) as u32, symoffset };
+                let h = refs::build_gnu_hash(enc, &hashed, &p);
+                let j = f.add_sec(b".gnu.hash", SHT_GNU_HASH, h);
+                kinds.push(Kind::GnuHash);
+                f.secs[j].hdr.sh_link = i as u32;
+                f.secs[j].align = word;
+            }
+        }
+        // --- versions
+        if has(3) {
+            let mut model = refs::gen_version_model(c, 3, 3, 3, dyn_names.len().max(1));
+            model.versym.resize(dyn_names.len(), 1);
+            let contiguous = c.bool();
+            let s = refs::build_versions(enc, &model, c, contiguous, true);
+            let strs = match i_dynsym {
+                Some((_, i_str)) if c.bool() => {
+                    // append the version strings to .dynstr? keep it simple: own string table
+                    let _ = i_str;
+                    let k = f.add_sec(b".verstr", SHT_STRTAB, s.need_strs.clone());
+                    kinds.push(Kind::Strtab);
+                    k
+                }
+                _ => {
+                    let k = f.add_sec(b".verstr", SHT_STRTAB, s.need_strs.clone());
+                    kinds.push(Kind::Strtab);
+                    k
+                }
+            };
+            let i = f.add_sec(b".gnu.version", SHT_GNU_VERSYM, s.versym.clone());
+            kinds.push(Kind::Versym);
+            f.secs[i].hdr.sh_entsize = 2;
+            f.secs[i].hdr.sh_link = i_dynsym.map(|x| x.0 as u32).unwrap_or(0);
+            f.secs[i].align = 2;
+            if !model.needs.is_empty() {
+                let i = f.add_sec(b".gnu.version_r", SHT_GNU_VERNEED, s.verneed.clone());
+                kinds.push(Kind::Verneed);
+                f.secs[i].hdr.sh_link = strs as u32;
+                f.secs[i].hdr.sh_info = model.needs.len() as u32;
+                f.secs[i].align = 4;
+            }
+            if !model.defs.is_empty() {
+                let i = f.add_sec(b".gnu.version_d", SHT_GNU_VERDEF, s.verdef.clone());
+                kinds.push(Kind::Verdef);
+                f.secs[i].hdr.sh_link = strs as u32;
+                f.secs[i].hdr.sh_info = model.defs.len() as u32;
+                f.secs[i].align = 4;
+            }
+        }
+        // --- static symbols
+        if has(4) {
+            sym_names = simple_names(c, o.max_names.max(2));
+            let tab = refs::build_symtab(enc, &sym_names, c.u16() as u64, c.bool());
+            let i_str = f.add_sec(b".strtab", SHT_STRTAB, tab.strtab.clone());
+            kinds.push(Kind::SymStr);
+            let i = f.add_sec(b".symtab", SHT_SYMTAB, tab.symtab.clone());
+            kinds.push(Kind::Symtab);
+            f.secs[i].hdr.sh_link = i_str as u32;
+            f.secs[i].hdr.sh_entsize = sym_size(enc) as u64;
+            f.secs[i].align = word;
+        }
+        // --- notes
+        let mut note_secs = vec![];
+        for k in 0..(has(5) as usize + has(6) as usize) {
+            let align = *c.pick(&[4usize, 4, 4, 8, 1, 2, 16]);
+            let mut w = W::new(enc);
+            let n = 1 + c.below(3);
+            for _ in 0..n {
+                let rec = match c.below(3) {
+                    0 => NoteRec { n_type: 1, name: b"GNU\0".to_vec(), desc: vec![0, 0, 0, 0, 2, 0, 0, 0, 6, 0, 0, 0, 32, 0, 0, 0] },
+                    1 => {
+                        let l = c.below(24) as usize;
+                        NoteRec { n_type: 3, name: b"GNU\0".to_vec(), desc: c.bytes(l) }
+                    }
+                    _ => {
+                        let (nl, dl) = (c.below(12) as usize, c.below(20) as usize);
+                        NoteRec { n_type: c.val(32) as u32, name: c.bytes(nl), desc: c.bytes(dl) }
+                    }
+                };
+                rec.write(&mut w, 0, align);
+            }
+            let i = f.add_sec(if k == 0 { b".note.ABI-tag" } else { b".note.gnu.build-id" }, SHT_NOTE, w.buf);
+            kinds.push(Kind::Note);
+            f.secs[i].hdr.sh_addralign = align as u64;
+            f.secs[i].align = align;
+            note_secs.push(i);
+        }
+        // --- relocations
+        if has(7) {
+            let n = c.below(6);
+            let mut w = W::new(enc);
+            for _ in 0..n {
+                Rel { r_offset: c.val(64), r_info: c.val(64) }.write(&mut w);
+            }
+            let i = f.add_sec(b".rel.dyn", SHT_REL, w.buf);
+            kinds.push(Kind::Rel);
+            f.secs[i].hdr.sh_entsize = rel_size(enc) as u64;
+            f.secs[i].align = word;
+        }
+        if has(8) {
+            let n = c.below(6);
+            let mut w = W::new(enc);
+            for _ in 0..n {
+                Rela { r_offset: c.val(64), r_info: c.val(64), r_addend: c.val(64) as i64 }.write(&mut w);
+            }
+            let i = f.add_sec(b".rela.plt", SHT_RELA, w.buf);
+            kinds.push(Kind::Rela);
+            f.secs[i].hdr.sh_entsize = rela_size(enc) as u64;
+            f.secs[i].align = word;
+        }
+        // --- dynamic
+        let mut i_dynamic = None;
+        if has(9) {
+            let n = 1 + c.below(6);
+            let mut w = W::new(enc);
+            for _ in 0..n {
+                Dyn { d_tag: *c.pick(&[1i64, 5, 6, 10, 0x6ffffef5, 0x6ffffffe, -1, 0x7fffffff]), d_un: c.val(64) }.write(&mut w);
+            }
+            Dyn { d_tag: 0, d_un: 0 }.write(&mut w);
+            let i = f.add_sec(b".dynamic", SHT_DYNAMIC, w.buf);
+            kinds.push(Kind::Dynamic);
+            f.secs[i].hdr.sh_entsize = dyn_size(enc) as u64;
+            f.secs[i].hdr.sh_link = i_dynsym.map(|x| x.1 as u32).unwrap_or(0);
+            f.secs[i].align = word;
+            i_dynamic = Some(i);
+        }
+        // --- plain data
+        for k in 0..(has(10) as usize + has(11) as usize) {
+            let l = c.below(48) as usize;
+            let b = c.bytes(l);
+            f.add_sec(if k == 0 { b".text" } else { b".data" }, SHT_PROGBITS, b);
+            kinds.push(Kind::Progbits);
+        }
+        if has(12) {
+            let i = f.add_sec(b".bss", SHT_NOBITS, vec![]);
+            kinds.push(Kind::Nobits);
+            f.secs[i].no_space = true;
+            f.secs[i].hdr.sh_size = c.val(32);
+        }
+        if has(13) && o.allow_compressed {
+            let l = c.below(40) as usize;
+            let mut body = enc_bytes(enc, |w| Chdr { ch_type: 1 + c.below(2) as u32, ch_reserved: 0, ch_size: c.val(32), ch_addralign: 1 }.write(w));
+            let cut = c.chance(40);
+            let payload = c.bytes(l);
+            body.extend_from_slice(&payload);
+            if cut {
+                let nl = c.idx(body.len());
+                body.truncate(nl);
+            }
+            let i = f.add_sec(b".zdebug", SHT_PROGBITS, body);
+            kinds.push(Kind::Compressed);
+            f.secs[i].hdr.sh_flags = SHF_COMPRESSED;
+        }
+        if has(14) {
+            let l = c.below(30) as usize;
+            let mut b = c.bytes(l);
+            if c.bool() {
+                b.push(0);
+            }
+            f.add_sec(b".comment", SHT_STRTAB, b);
+            kinds.push(Kind::Strtab);
+        }
+        // section-name string table
+        if !c.chance(24) {
+            let s = f.add_sec(b".shstrtab", SHT_STRTAB, vec![]);
+            kinds.push(Kind::ShStrtab);
+            f.shstrndx = Some(s);
+        }
+        // --- segments
+        let nseg = c.below(5);
+        for _ in 0..nseg {
+            let t = c.below(6);
+            let nsec = f.secs.len();
+            let seg = match t {
+                0 if !note_secs.is_empty() => Seg { hdr: Phdr { p_type: PT_NOTE, p_flags: 4, p_align: f.secs[note_secs[0]].hdr.sh_addralign, ..Default::default() }, covers: Some(note_secs[c.idx(note_secs.len())]) },
+                1 if i_dynamic.is_some() => Seg { hdr: Phdr { p_type: PT_DYNAMIC, p_flags: 6, p_align: 8, ..Default::default() }, covers: i_dynamic },
+                2 => Seg { hdr: Phdr { p_type: PT_LOAD, p_flags: c.below(8) as u32, p_align: 0x1000, p_memsz: c.val(32), p_vaddr: c.val(64), ..Default::default() }, covers: Some(c.idx(nsec)) },
+                3 => Seg { hdr: Phdr { p_type: c.val(32) as u32, p_flags: c.val(32) as u32, p_offset: c.val(32), p_filesz: c.val(16), p_memsz: c.val(32), p_align: c.val(64), ..Default::default() }, covers: None },
+                _ => Seg { hdr: Phdr { p_type: PT_LOAD, p_flags: 5, p_align: 0x1000, ..Default::default() }, covers: Some(c.idx(nsec)) },
+            };
+            let mut seg = seg;
+            if seg.hdr.p_memsz == 0 {
+                seg.hdr.p_memsz = c.val(24);
+            }
+            f.segs.push(seg);
+        }
+        if c.chance(20) {
+            f.omit_shdrs = true;
+        }
+    }
+    // layout
+    random_layout(c, &mut f, o.max_gap);
+    if o.tables_early {
+        f.order.retain(|p| !matches!(p, Piece::Phdrs | Piece::Shdrs));
+        f.order.insert(0, Piece::Shdrs);
+        f.order.insert(0, Piece::Phdrs);
+        if f.gaps.len() >= 2 {
+            f.gaps[0] = 0;
+            f.gaps[1] = 0;
+        }
+    }
+    let first = build(&f);
+    let file_len = first.bytes.len();
+    // header overrides
+    let mut n_over = 0;
+    if c.chance(o.override_chance) {
+        n_over = 1 + c.below(3) as usize;
+        for _ in 0..n_over {
+            let nsec = first.shdrs.len();
+            let nseg = first.phdrs.len();
+            match c.below(3) {
+                0 => {
+                    let fld = *c.pick(&EHDR_FIELDS[3..]);
+                    let own = match fld {
+                        "e_shoff" => first.ehdr.e_shoff,
+                        "e_phoff" => first.ehdr.e_phoff,
+                        "e_shnum" => first.ehdr.e_shnum as u64,
+                        "e_phnum" => first.ehdr.e_phnum as u64,
+                        "e_shentsize" => first.ehdr.e_shentsize as u64,
+                        "e_phentsize" => first.ehdr.e_phentsize as u64,
+                        "e_shstrndx" => first.ehdr.e_shstrndx as u64,
+                        _ => 0,
+                    };
+                    let v = boundary_for(c, file_len, own);
+                    f.overrides.push(Override { target: Target::Ehdr, field: fld, value: v });
+                }
+                1 if nsec > 0 => {
+                    let i = c.idx(nsec);
+                    let fld = *c.pick(&SHDR_FIELDS);
+                    let h = &first.shdrs[i];
+                    let own = match fld {
+                        "sh_offset" => h.sh_offset,
+                        "sh_size" => h.sh_size,
+                        "sh_link" => h.sh_link as u64,
+                        "sh_info" => h.sh_info as u64,
+                        "sh_entsize" => h.sh_entsize,
+                        "sh_name" => h.sh_name as u64,
+                        "sh_type" => h.sh_type as u64,
+                        _ => 0,
+                    };
+                    let v = if fld == "sh_type" && c.bool() { *c.pick(&[0u64, 1, 2, 3, 4, 5, 6, 7, 8, 9, 11, 0x6ffffff6, 0x6ffffffd, 0x6ffffffe, 0x6fffffff]) } else if fld == "sh_link" && c.bool() { c.below(nsec as u64 + 1) } else { boundary_for(c, file_len, own) };
+                    f.overrides.push(Override { target: Target::Shdr(i), field: fld, value: v });
+                }
+                _ if nseg > 0 => {
+                    let i = c.idx(nseg);
+                    let fld = *c.pick(&PHDR_FIELDS);
+                    let h = &first.phdrs[i];
+                    let own = match fld {
+                        "p_offset" => h.p_offset,
+                        "p_filesz" => h.p_filesz,
+                        "p_memsz" => h.p_memsz,
+                        "p_align" => h.p_align,
+                        _ => 0,
+                    };
+                    let v = if fld == "p_type" && c.bool() { *c.pick(&[0u64, 1, 2, 3, 4, 6, 7]) } else { boundary_for(c, file_len, own) };
+                    f.overrides.push(Override { target: Target::Phdr(i), field: fld, value: v });
+                }
+                _ => {}
+            }
+        }
+    }
+    let mut built = if f.overrides.is_empty() { first } else { build(&f) };
+    // byte-level corruption inside section bodies / anywhere
+    let mut corrupted = false;
+    if c.chance(o.corrupt_chance) && !built.bytes.is_empty() {
+        corrupted = true;
+        let k = 1 + c.below(4);
+        for _ in 0..k {
+            let (lo, len) = if !built.body_at.is_empty() && c.chance(200) {
+                let i = c.idx(built.body_at.len());
+                built.body_at[i]
+            } else {
+                (0, built.bytes.len())
+            };
+            if len == 0 {
+                continue;
+            }
+            match c.below(3) {
+                0 => {
+                    let at = lo + c.idx(len);
+                    built.bytes[at] = c.u8();
+                }
+                1 => {
+                    // aligned 32-bit word <- boundary value
+                    let at = lo + (c.idx(len) & !3);
+                    let v = (boundary_for(c, len, at as u64) as u32).to_le_bytes();
+                    for j in 0..4 {
+                        if at + j < built.bytes.len() {
+                            built.bytes[at + j] = if enc.le { v[j] } else { v[3 - j] };
+                        }
+                    }
+                }
+                _ => {
+                    let at = lo + c.idx(len);
+                    built.bytes[at] ^= 1 << c.below(8);
+                }
+            }
+        }
+    }
+    Rich { overridden: !f.overrides.is_empty(), n_overrides: n_over, spec: f, built, kinds, dyn_names, sym_names, corrupted }
+}
